@@ -393,6 +393,19 @@ func (g *gen) state(st *workflow.State, w []int) {
 	}
 }
 
+// engineTimeoutMsg is the message of the error the engine itself records for an attempt it timed out
+// (internal/execute/sm/actions: pluginTimeoutMsg; not permanent). Repair must treat it like any other recorded error.
+const engineTimeoutMsg = "plugin execution timed out"
+
+// someErr draws the error of a recorded attempt: a plugin's own error (transient or permanent as asked), or - one time
+// in three for non-permanent ones - exactly the error the engine writes when the action's timeout fired.
+func (g *gen) someErr(permanent bool) *plugins.Error {
+	if !permanent && g.r.Chance(0.34) {
+		return &plugins.Error{Message: engineTimeoutMsg, Permanent: false}
+	}
+	return &plugins.Error{Message: "x", Permanent: permanent}
+}
+
 func (g *gen) attempts(a *workflow.Action) {
 	n := 0
 	switch a.State.Status {
@@ -412,17 +425,17 @@ func (g *gen) attempts(a *workflow.Action) {
 		case last && a.State.Status == workflow.Running:
 			at.End = g.someTime(0.5)
 			if g.r.Chance(0.5) {
-				at.Err = &plugins.Error{Message: "x"}
+				at.Err = g.someErr(false)
 			}
 		case last:
 			at.End = g.someTime(0.15)
 			if g.r.Chance(0.5) {
-				at.Err = &plugins.Error{Message: "x", Permanent: g.r.Chance(0.5)}
+				at.Err = g.someErr(g.r.Chance(0.5))
 			}
 		default:
 			at.End = g.someTime(0.25)
 			if g.r.Chance(0.75) {
-				at.Err = &plugins.Error{Message: "x"}
+				at.Err = g.someErr(false)
 			}
 		}
 		if at.Err == nil && !at.End.IsZero() {
@@ -1022,53 +1035,71 @@ func (v *firstPlanWrite) UpdatePlan(ctx context.Context, p *workflow.Plan) error
 	return v.Vault.UpdatePlan(ctx, p)
 }
 
-// probeEntry runs the REAL recovery on img (a fresh vault holding it) and says where Recovery went.
-// With waitFinal it waits for the recovered run to end (statistics); otherwise it returns as soon as the first
-// plan write was seen (arbitrary images: what the engine does afterwards is not this check's business).
-// rb is the image as the store returns it (what recovery reads), read before the Workstream is opened.
-func probeEntry(set *hplug.Set, img *workflow.Plan, nonce string, script map[string][]int, waitFinal bool) (entry string, info map[string]any, rb *workflow.Plan) {
+// probe observes the entry point of a REAL recovery of one image. It is schedule-independent by construction:
+//   prepare : a fresh in-memory vault, Create(img), read the image back twice (rb, rb2: what recovery will read) -
+//             no engine exists for this plan yet, so the caller can hand rb to the hooks (FixPlan) in peace;
+//   run     : coercion.New on the vault; the ONLY things taken from the live recovery are its own first observable
+//             actions, logged by the vault wrapper / the plugins: the first UpdatePlan (its status and whether it
+//             carries a new Start or a new End) and the number of plugin calls;
+//   anything read from the store afterwards is read only after Wait returned (terminal, quiescent).
+type probe struct {
+	set        *hplug.Set
+	inner      *sqlite.Vault
+	id         uuid.UUID
+	rb, rb2    *workflow.Plan
+	start, end time.Time // of the plan, in the stored image
+	nonce      string
+	err        string
+}
+
+func prepareProbe(set *hplug.Set, img *workflow.Plan, nonce string) *probe {
 	ctx := context.Background()
-	info = map[string]any{}
+	p := &probe{set: set, id: img.ID, nonce: nonce}
 	// the recovery's plugin calls are attributed through the nonce INSIDE the requests: give the stored copy its own
 	old := setNonce(img, nonce)
 	defer setNonce(img, old)
 	inner, err := sqlite.New(ctx, "", set.Reg, sqlite.WithInMemory())
 	if err != nil {
-		info["error"] = err.Error()
-		return "", info, nil
+		p.err = err.Error()
+		return p
 	}
-	if waitFinal {
-		defer inner.Close(ctx)
-	}
+	p.inner = inner
 	if err := inner.Create(ctx, img); err != nil {
-		info["error"] = "create: " + err.Error()
-		return "", info, nil
+		p.err = "create: " + err.Error()
+		return p
 	}
-	rb, err = inner.Read(ctx, img.ID)
-	if err != nil {
-		info["error"] = "read: " + err.Error()
-		return "", info, nil
+	if p.rb, err = inner.Read(ctx, img.ID); err != nil {
+		p.err = "read: " + err.Error()
+		return p
 	}
-	fw := &firstPlanWrite{Vault: inner}
-	s := openSession(nonce, script, 0)
-	defer closeSession(nonce)
-	ws, err := coercion.New(ctx, set.Reg, fw)
+	if p.rb2, err = inner.Read(ctx, img.ID); err != nil {
+		p.err = "read: " + err.Error()
+		return p
+	}
+	p.start, p.end = p.rb.State.Start, p.rb.State.End
+	return p
+}
+
+// run starts the recovery. quiesce: how long to wait for the recovered run to end. quiet reports whether it ended
+// (if not, the process still holds a live engine: the caller must not go on working in this process).
+func (p *probe) run(script map[string][]int, quiesce time.Duration) (entry string, info map[string]any, quiet bool) {
+	ctx := context.Background()
+	info = map[string]any{}
+	fw := &firstPlanWrite{Vault: p.inner}
+	s := openSession(p.nonce, script, 0)
+	defer closeSession(p.nonce)
+	ws, err := coercion.New(ctx, p.set.Reg, fw)
 	if err != nil {
 		info["error"] = "new: " + err.Error()
-		return "", info, rb
+		return "", info, true
 	}
-	if waitFinal {
-		wctx, cancel := context.WithTimeout(ctx, 4*time.Second)
-		fin, err := ws.Wait(wctx, img.ID)
-		cancel()
-		if err != nil {
-			info["hang"] = true
-		} else {
-			info["final"] = stTerm(fin.State.Status)
-			info["running_left"] = countRunning(fin)
-		}
-	} else {
-		for t := 0; t < 2000; t++ {
+	wctx, cancel := context.WithTimeout(ctx, quiesce)
+	fin, err := ws.Wait(wctx, p.id)
+	cancel()
+	if err != nil {
+		info["hang"] = true
+		// not quiescent: nothing is read from the store; give the first plan write (if it did not happen yet) a chance
+		for t := 0; t < 3000; t++ {
 			fw.mu.Lock()
 			seen := fw.seen
 			fw.mu.Unlock()
@@ -1077,6 +1108,11 @@ func probeEntry(set *hplug.Set, img *workflow.Plan, nonce string, script map[str
 			}
 			time.Sleep(time.Millisecond)
 		}
+	} else {
+		quiet = true
+		info["final"] = stTerm(fin.State.Status)
+		info["running_left"] = countRunning(fin)
+		p.inner.Close(ctx)
 	}
 	s.mu.Lock()
 	info["plugin_calls"] = len(s.calls)
@@ -1084,20 +1120,20 @@ func probeEntry(set *hplug.Set, img *workflow.Plan, nonce string, script map[str
 	fw.mu.Lock()
 	defer fw.mu.Unlock()
 	if !fw.seen {
-		return "", info, rb
+		return "", info, quiet
 	}
 	// Start stamps a new Start (and writes Running); End stamps a new End (and writes the final status);
 	// Recovery's own write before PlanBypassChecks changes neither instant
 	switch {
-	case !fw.start.Equal(rb.State.Start):
+	case !fw.start.Equal(p.start):
 		entry = "EStart"
-	case !fw.end.Equal(rb.State.End):
+	case !fw.end.Equal(p.end):
 		entry = "EEnd"
 	default:
 		entry = "EBypass"
 	}
 	info["first_plan_write_status"] = stTerm(fw.status)
-	return entry, info, rb
+	return entry, info, quiet
 }
 
 // setNonce rewrites the nonce carried by every request of p and returns the previous one.
@@ -1167,23 +1203,40 @@ func childArb(lo, hi int, out string) {
 			}
 		}
 		script := g.script(all, num, 0.3)
-		entry, info, rb := probeEntry(set, p, g.nonce+"-probe", script, false)
-		if rb == nil {
-			w.Put(core.Case{ID: fmt.Sprintf("arb-entry-%d", i), Kind: "probe-error", Note: fmt.Sprint(info["error"]), Input: map[string]any{"seed": core.Seed(), "index": i}})
+		pb := prepareProbe(set, p, g.nonce+"-probe")
+		if pb.err != "" {
+			w.Put(core.Case{ID: fmt.Sprintf("arb-entry-%d", i), Kind: "probe-error", Note: pb.err, Input: map[string]any{"seed": core.Seed(), "index": i}})
 			continue
 		}
+		// 1. the repaired image: the hooks on the store's view of the image, BEFORE any engine exists for it
+		rb := pb.rb
 		n := number(rb)
 		before := plnTerm(rb, n)
 		setNonce(rb, g.nonce+"-hooks")
-		coq, obs, note := f.fixPlanCase(rb, n, g.nonce+"-hooks", script, entry)
+		coq0, obs, note := f.fixPlanCase(rb, n, g.nonce+"-hooks", script, "")
+		// self-check: the same hooks on a second, independent read of the same stored image
+		setNonce(pb.rb2, g.nonce+"-hooks2")
+		coq2, _, _ := f.fixPlanCase(pb.rb2, number(pb.rb2), g.nonce+"-hooks2", script, "")
+		if coq2 != coq0 {
+			note = "self-check: two hook calls on two reads of the same stored image differ\n" + coq0 + "\n" + coq2
+		}
+		// 2. the entry point: the real recovery's own first plan write
+		entry, info, quiet := pb.run(script, 300*time.Millisecond)
+		coq := coq0
+		if entry != "" {
+			coq = strings.TrimSuffix(coq0, " None)") + " (Some " + entry + "))"
+		}
 		mix := obs["status_mix_before"]
 		delete(obs, "status_mix_before")
 		obs["recovery"] = info
 		w.Put(core.Case{ID: fmt.Sprintf("arb-entry-%d", i), Kind: "arb-entry", Coq: coq, Nontrivial: true, Hash: core.Hash("arb-entry", coq),
 			Dist:  map[string]any{"profile": pr.name, "status_mix": mix, "probed": entry},
 			Input: map[string]any{"seed": core.Seed(), "index": i, "before": before}, Observed: obs, Note: note})
+		if !quiet {
+			os.Exit(6) // a live engine stays behind: the parent continues with a fresh process
+		}
 	}
-	os.Exit(0) // do not wait for the recoveries still running in the background
+	os.Exit(0)
 }
 
 func child(lo, hi int, probeEvery int, out string) {
@@ -1270,10 +1323,21 @@ func child(lo, hi int, probeEvery int, out string) {
 			seen[before] = true
 			entry, info := "", map[string]any(nil)
 			running := img.State.Status == workflow.Running
+			var pb *probe
 			if running && probeEvery > 0 && len(seen)%probeEvery == 0 {
-				entry, info, _ = probeEntry(set, img, g.nonce+"-probe", script, true)
+				pb = prepareProbe(set, img, g.nonce+"-probe") // stores the image before the hooks repair it
+				if pb.err != "" {
+					pb = nil
+				}
 			}
-			coq, obs, note := f.fixPlanCase(img, n, g.nonce, script, entry)
+			coq, obs, note := f.fixPlanCase(img, n, g.nonce, script, "")
+			quiet := true
+			if pb != nil {
+				entry, info, quiet = pb.run(script, 4*time.Second)
+				if entry != "" {
+					coq = strings.TrimSuffix(coq, " None)") + " (Some " + entry + "))"
+				}
+			}
 			mix := obs["status_mix_before"]
 			delete(obs, "status_mix_before")
 			if info != nil {
@@ -1283,6 +1347,9 @@ func child(lo, hi int, probeEvery int, out string) {
 				Hash: core.Hash("reachable", coq),
 				Dist: map[string]any{"write": kinds[k], "writes": len(snaps), "status_mix": mix, "probed": entry},
 				Input: map[string]any{"seed": core.Seed(), "run": i, "write": k, "before": before, "opts": o}, Observed: obs, Note: note})
+			if !quiet {
+				os.Exit(6) // a recovery that did not end stays behind: fresh process for the next run
+			}
 		}
 		inner.Close(ctx)
 	}
@@ -1385,7 +1452,9 @@ func main() {
 				if next <= lo {
 					next = lo + 1
 				}
-				results[ji] = append(results[ji], mustJSON(core.Case{ID: fmt.Sprintf("child-%d", lo), Kind: "child-died", Note: fmt.Sprint(err)}))
+				if ee, ok := err.(*exec.ExitError); !ok || ee.ExitCode() != 6 {
+					results[ji] = append(results[ji], mustJSON(core.Case{ID: fmt.Sprintf("child-%d", lo), Kind: "child-died", Note: fmt.Sprint(err)}))
+				}
 				lo = next
 			}
 		}(ji, j)
